@@ -678,6 +678,29 @@ func c01Cases(r *core.Run, prop string) []XZWCase {
 			add(XZWCase{Cfg: c, Shape: []Seg{{K: "P", Seed: 64, N: 100000}, {K: "R", Seed: 64, N: 90000}, {K: "T", Seed: 65, N: 60000}}})
 		}
 	}
+	// (o) boundary lattice derived from the configuration: input lengths at every size the encoder's
+	// buffers define (D = DictCap, B = BufSize, ring = D+B+1), each -1 / 0 / +1, x five kinds of data
+	for _, db := range [][2]int{{4096, 273}, {4096, 4096}, {5000, 300}, {65536, 4096}} {
+		D, B := db[0], db[1]
+		var ls []int
+		for _, c := range []int{B, D, D + B, D + B + 1, 2*(D+B+1) - 1, 2 * D, 3*(D+B+1) + 272} {
+			for d := -1; d <= 1; d++ {
+				if c+d > 0 && c+d <= 220000 {
+					ls = append(ls, c+d)
+				}
+			}
+		}
+		for _, L := range ls {
+			for _, k := range []string{"A", "T", "R", "P", "N"} {
+				for m := 0; m < 2; m++ {
+					if m == 1 && (k == "A" || L > 70000) {
+						continue // BinaryTree cost bound
+					}
+					add(XZWCase{Cfg: XZCfg{DictCap: D, BufSize: B, Matcher: m, Check: 1}, Shape: []Seg{{K: k, Seed: 70, B: 'm', N: L}}})
+				}
+			}
+		}
+	}
 	// (i) raw-chunk residency boundary: DictCap+BufSize just below / at / above the size of one full
 	// incompressible chunk (64 KiB), with more than two chunks of incompressible input: the writer
 	// may store a chunk raw only while its bytes are still held by the encoder dictionary
